@@ -149,6 +149,14 @@ def _c02_case(args):
     if all_edges != C02_FIXED_EDGES:
         return dict(violation=dict(case="import-edges", detail=f"edges of the fixed project files differ (scan #{_C02_SCANS[0]} in this process): missing {sorted(C02_FIXED_EDGES - all_edges)}, "
                                    f"unaccounted {sorted(all_edges - C02_FIXED_EDGES)}", input=dict(kind="c02", path=[list(p) for p in path], stmt=stmt, expected=expected, in_init=in_init)))
+    if got == want:
+        # the same statement with external libraries included and an external exclusion pattern that textually matches internal names: the internal edges are the same
+        with temp_project(files, ROOT) as root2:
+            inc = _internal_imports(scan(root2, exclude_external_libraries=False, external_exclusions=("*a*",)), importer)
+        inc = {m for m in inc if m.startswith(ROOT + ".") or m == ROOT}
+        if inc != want:
+            return dict(violation=dict(case="import-edges", detail=f"statement {stmt!r}: with externals included and external_exclusions=('*a*',) the edges from {importer} to internal modules are {sorted(inc)}, "
+                                       f"the statement names {sorted(want)}", input=dict(kind="c02", path=[list(p) for p in path], stmt=stmt, expected=expected, in_init=in_init)))
     if got != want:
         return dict(violation=dict(case="import-edges", detail=f"statement {stmt!r} at position {['.'.join(p) for p in path] or 'module level'} in {user}: edges from {importer} to {sorted(got)}, "
                                    f"the statement names {sorted(want)} (missing {sorted(want - got)}, unaccounted {sorted(got - want)})",
@@ -431,7 +439,8 @@ def _c04_module_objects(seed):
     from pytestarch import get_evaluable_architecture_for_module_objects
     rng = random.Random(seed)
     rootname = f"pkgobj{seed}"
-    files = {"__init__.py": "", "a/__init__.py": "", "a/m.py": f"import {rootname}.b.k\n", "b/__init__.py": "", "b/k.py": "import os.path\n", "b/tests/__init__.py": "", "b/tests/t.py": f"import {rootname}.a.m\n"}
+    files = {"__init__.py": "", "a/__init__.py": "", "a/m.py": f"import {rootname}.b.k\n", "b/__init__.py": "", "b/k.py": "import os.path\n", "b/tests/__init__.py": "", "b/tests/t.py": f"import {rootname}.a.m\n",
+             "a/__pycache__/m.py": ""}      # (removed by the DEFAULT exclusions only: an explicit empty tuple keeps it)
     out = []
     with temp_project(files, rootname) as root:
         base = os.path.dirname(root)
@@ -439,7 +448,7 @@ def _c04_module_objects(seed):
         try:
             rm = importlib.import_module(rootname)
             sm = importlib.import_module(rootname + ".b")
-            for kw in (dict(), dict(exclusions=("*tests*",)), dict(exclude_external_libraries=False), dict(level_limit=1), dict(regex_exclusions=(".*tests.*",), exclusions=()),
+            for kw in (dict(), dict(exclusions=()), dict(exclusions=("*tests*",)), dict(exclude_external_libraries=False), dict(level_limit=1), dict(regex_exclusions=(".*tests.*",), exclusions=()),
                        dict(exclude_external_libraries=False, external_exclusions=("os*",)), dict(exclude_external_libraries=False, regex_external_exclusions=("os.*",))):
                 for (ro, mo, rp, mp_) in ((rm, rm, root, root), (rm, sm, root, os.path.join(root, "b"))):
                     try:
@@ -555,10 +564,18 @@ def _c08_case(seed):
                 out.append(dict(case="exclusion", detail=f"{kw}: scan raised {type(ex).__name__}: {ex}", input=dict(kind="c08", seed=seed)))
         target = rng.choice(sorted(p for p in allpaths if p != root))
         name = os.path.basename(target)
-        shapes = [target, "*" + name, target + "*", "*" + name + "*", "*/" + name, os.path.dirname(target) + "/" + name[:2] + "*"]
-        for pat in rng.sample(shapes, 3):
+        shapes = [target, "*" + name, target + "*", "*" + name + "*", "*/" + name, os.path.dirname(target) + "/" + name[:2] + "*",
+                  "*/" + name + "/*", target + "/", "*" + name + "/"]        # (literal text ending in the path separator)
+        for pat in rng.sample(shapes, 3) + ["<prefix-regex>"]:
             for mode in ("glob", "regex"):
-                if mode == "glob":
+                if pat == "<prefix-regex>":
+                    # a regular expression is anchored at the START of the path only: one that matches a proper prefix of a path excludes it
+                    if mode == "glob":
+                        continue
+                    rx = re.escape(os.path.dirname(target) + "/" + name[:max(1, len(name) - 1)])
+                    kw = dict(exclusions=(), regex_exclusions=(rx,))
+                    match = lambda p, rx=rx: re.match(rx, p) is not None
+                elif mode == "glob":
                     kw = dict(exclusions=(pat,))
                     match = lambda p: glob_matches(pat, p)
                 else:
@@ -667,6 +684,8 @@ def _c09_case(seed):
     files["core/util/text/__init__.py"] = ""
     files["core/util/text/fmt.py"] = "import core.api\n"
     files["core/services/__init__.py"] = ""
+    files["core/API/__init__.py"] = ""
+    files["core/API/w.py"] = f"import {ROOT}.core.api.v1.g\n"       # 'core.API' and 'core.api' are different modules at every level limit
     files["core/services/db/__init__.py"] = ""
     files["core/services/db/conn.py"] += f"import {ROOT}.core.api.v1\n"
     add_imports(files, rng, rng.randint(4, 12))
@@ -725,7 +744,7 @@ def rerun_c09(inp):
 
 
 # ---------------------------------------------------------------------------------------------- C10
-EXTERNALS = ["os", "os.path", "vendorlib.core.api", "vendorlib.extras", "vendorlib", "projx.util", "proj_tools", "ab.cd", "a", "corelib.handlers", "shopify.resources.order"]
+EXTERNALS = ["ro", "pro.j", "os", "os.path", "vendorlib.core.api", "vendorlib.extras", "vendorlib", "projx.util", "proj_tools", "ab.cd", "a", "corelib.handlers", "shopify.resources.order"]
 
 
 def _c10_case(seed):
